@@ -13,7 +13,9 @@
 #include "assumed_elements.h"
 #include "src/secp256k1.c"
 #include "post.h"
+#ifndef TMAX
 #define TMAX 3
+#endif
 #ifndef VERIF_NATIVE
 /* v mod p for v < 16 p (magnitudes up to 4 + 2), by conditional subtraction (a 320-bit '%' costs minutes) */
 static wide modp16(wide v) { wide p = P_(); int i; for (i = 8; i >= 1; i >>= 1) if (v >= p * W(i)) v -= p * W(i); return v; }
@@ -24,7 +26,7 @@ void h_tally(void) {
     INPUT(secp256k1_pedersen_commitment, c0); INPUT(secp256k1_pedersen_commitment, c1); INPUT(secp256k1_pedersen_commitment, c2);
     INPUT(secp256k1_pedersen_commitment, d0); INPUT(secp256k1_pedersen_commitment, d1); INPUT(secp256k1_pedersen_commitment, d2);
     INPUT(size_t, pcnt); INPUT(size_t, ncnt); INPUT(size_t, gi); INPUT(int, nullsel); INPUT(size_t, nullidx);
-    const secp256k1_pedersen_commitment *pos[TMAX], *neg[TMAX], *w; int ret;
+    const secp256k1_pedersen_commitment *pos[3], *neg[3], *w; int ret;
     __CPROVER_assume(pcnt <= TMAX && ncnt <= TMAX);
     pos[0] = &c0; pos[1] = &c1; pos[2] = &c2; neg[0] = &d0; neg[1] = &d1; neg[2] = &d2;
     verif_ctx_init(&ctx);
